@@ -21,6 +21,31 @@ def explore(chk):
     N = 400 if chk.tier == "quick" else 10000
     progs = [sccgen.gen_rollup(rng, paint=(i % 3 == 2), rich=(i % 2 == 1)) for i in range(N)]
     progs += [sccgen.gen_mixed(rng, rich=(i % 2 == 1)) for i in range(N // 4)]
+    # paint-on cues painted on consecutive rows under ONE resume-direct-captioning command, a later row beginning with an
+    # extended character sent without a stand-in (nothing is on that row yet, so nothing is replaced)
+    xsub = chk.sub("paint_rows_starting_with_extended")
+    K_ = sccgen.tables()
+    ext_ = sorted(K_.EXTENDED_CHARS.items())
+    for i in range(12 if chk.tier == "quick" else 300):
+        doubled = bool(i % 2); df = bool((i // 2) % 2)
+        lines = ["Scenarist_SCC V1.0", ""]; rows = []; frame = xsub.choice([30, 900])
+        for _ in range(xsub.randint(1, 2)):
+            r0 = xsub.randint(1, 12); nrows = xsub.randint(2, 3)
+            words = [sccgen.CMD["RDC"]] * (2 if doubled else 1)
+            for k in range(nrows):
+                txt = " ".join("".join(xsub.choice(sccgen.SAFE_CHARS[:52]) for _ in range(xsub.randint(2, 6))) for _ in range(xsub.randint(1, 3)))
+                words += [sccgen.pac(r0 + k, 0)] * (2 if doubled else 1)
+                if k and xsub.random() < 0.7:
+                    w_, ch_ = xsub.choice(ext_)
+                    words += [w_] * (2 if doubled else 1)
+                    words += sccgen.chars_to_words(txt)
+                    rows.append({"text": ch_ + txt, "frame": frame, "words": 0})
+                else:
+                    words += sccgen.chars_to_words(txt)
+                    rows.append({"text": txt, "frame": frame, "words": 0})
+            lines += [sccgen.timecode(frame, df) + "\t" + " ".join(words), ""]
+            frame += len(words) + xsub.choice([30, 90])
+        progs.append({"mode": "paint", "text": "\n".join(lines) + "\n", "rows": rows, "df": df, "doubled": doubled, "offset": 0, "ru_once": False})
     b = core.Batch()
     ops = [b.add("scc.read", "0/1", core.enc(p["text"])) for p in progs]
     out = b.run() if chk.driver_ok else None
